@@ -42,6 +42,7 @@ var exprFaults = []exprFault{
 	{"index", "d.SL[ix]", false, "vnd.And(ix >= 0, ix < 3)", "index"},
 	{"nomethod", "d.Nosuch()", false, "false", "call"},
 	{"nofunc", "nosuch(1)", false, "false", "call"},
+	{"missingline", "deadline + 1", false, "false", "name"},
 	{"lateroot", "late.I", false, "!lm", "name"},
 	{"lateroot2", "late.P.A", false, "!lm", "name"},
 }
@@ -682,9 +683,19 @@ func %s() {
 		if !(fc.id == "zerodiv_assign" || fc.id == "strless_if" || fc.id == "intand_elseif" || fc.id == "boom_forbody" || fc.id == "nilmapwrite" || fc.id == "zerodiv_conc" || fc.id == "rangeint") {
 			continue
 		}
-		for _, entry := range []string{"incremental", "poolctor", "poolupdate", "poolincremental", "resend", "poolresend"} {
-			name := "E_" + fc.id + "_" + entry
+		for _, entry := range []string{"incremental", "poolctor", "poolupdate", "poolincremental", "resend", "poolresend", "incremental-long"} {
+			name := "E_" + fc.id + "_" + strings.ReplaceAll(entry, "-", "_")
 			lead := "\n   \n\n"
+			shift := 3
+			if entry == "incremental-long" {
+				// the faulty construct sits beyond line 256 and beyond line 1024
+				lead = strings.Repeat("\n", 300)
+				shift = 300
+				if fc.id == "zerodiv_assign" {
+					lead = strings.Repeat("// filler\n", 1100)
+					shift = 1100
+				}
+			}
 			fmt.Fprintf(&b, `
 // fault %s compiled through %s, text starting with three blank lines
 func %s() {
@@ -705,7 +716,7 @@ func %s() {
 		vnd.Assert(c == %d, "every cited line is the line of the failing construct in the text as submitted")
 	}
 }
-`, fc.id, entry, name, entry, lead+fc.text, fc.healthy, fc.mustCite, fc.line+3)
+`, fc.id, entry, name, strings.TrimSuffix(entry, "-long"), lead+fc.text, fc.healthy, fc.mustCite, fc.line+shift)
 			fam.Instances = append(fam.Instances, Instance{Func: name, Stratum: "entry:" + entry, Desc: fmt.Sprintf("fault %s through %s", fc.id, entry), Text: lead + fc.text, Expect: []string{"executed"}})
 		}
 	}
